@@ -136,15 +136,30 @@ class Side:
         f = RecFactory(self, name, "acceptor", cls)
         self.listening[name] = f
         d = self.api.listener_for(name).listen(f)
+
+        def ready(port):
+            self.__dict__.setdefault("listen_ready", {}).setdefault(
+                name, self.world.sim.steps)
+            return port
+        d.addCallback(ready)
         d.addErrback(lambda fl: self.connect_results.append(
             ("listen:" + name, "failed", fl.type)))
         return f
 
     def connect(self, name, cls=RecProtocol):
         f = RecFactory(self, name, "opener", cls)
-        rec = [name, "pending", None]
+        rec = [name, "pending", None, len(self.connect_results),
+               self.world.sim.steps]
         self.connect_results.append(rec)
-        d = self.api.connector_for(name).connect(f)
+        if getattr(self, "reuse_endpoints", False):
+            # the usual Twisted idiom: keep the endpoint object around
+            cache = self.__dict__.setdefault("_ep_cache", {})
+            ep = cache.get(name)
+            if ep is None:
+                ep = cache[name] = self.api.connector_for(name)
+        else:
+            ep = self.api.connector_for(name)
+        d = ep.connect(f)
 
         def ok(p):
             rec[1], rec[2] = "ok", p
